@@ -447,14 +447,18 @@ class MathMixin(object):
         for entry in remove_keys:
             if entry in self.default_variables:
                 del self.default_variables[entry]
-            del self.config['user_constants'][entry]
-        
-        warn_if_override(self.config, 'variables', self.default_variables)
-        warn_if_override(self.config, 'numbered_vars', self.default_variables)
-        warn_if_override(self.config, 'user_constants', self.default_variables)
-        warn_if_override(self.config, 'user_functions', self.default_functions)
-        
-        validate_no_collisions(self.config, keys=['variables', 'user_constants'])
+        # The None entries stay in the stored configuration, so that a grader rebuilt from
+        # self.config removes the same defaults. Below, only the actual constants count.
+        user_constants = {key: value for key, value in self.config['user_constants'].items()
+                          if value is not None}
+        effective_config = dict(self.config, user_constants=user_constants)
+
+        warn_if_override(effective_config, 'variables', self.default_variables)
+        warn_if_override(effective_config, 'numbered_vars', self.default_variables)
+        warn_if_override(effective_config, 'user_constants', self.default_variables)
+        warn_if_override(effective_config, 'user_functions', self.default_functions)
+
+        validate_no_collisions(effective_config, keys=['variables', 'user_constants'])
         
         self.permitted_functions = get_permitted_functions(self.default_functions,
                                                            self.config['whitelist'],
@@ -464,7 +468,7 @@ class MathMixin(object):
         # Set up the various lists we use
         self.functions, self.random_funcs = construct_functions(self.default_functions,
                                                                 self.config["user_functions"])
-        self.constants = construct_constants(self.default_variables, self.config["user_constants"])
+        self.constants = construct_constants(self.default_variables, user_constants)
         self.suffixes = construct_suffixes(self.default_suffixes, self.config["metric_suffixes"])
         
         # Construct the schema for sample_from
